@@ -48,15 +48,24 @@ class ChildHooks(object):
             return os.path.relpath(p, self.root)
         return None
 
-    def point(self, op, path, fn):
+    def point(self, op, path, fn, path2=None):
+        """path2: the second path of a two-path operation (the source of a rename / replace);
+        such an operation is one atomic step that touches (and mutates) both paths."""
         rel = self.rel(path)
+        rel2 = self.rel(path2) if path2 is not None else None
+        if rel is None and rel2 is not None:
+            rel, rel2 = rel2, None
         if rel is None:
             return fn()
         if self.record is not None:
             self.record.append((op, rel))
+            if rel2 is not None:
+                self.record.append((op, rel2))
             return fn()
-        if self.conflict is not None and rel not in self.conflict:
+        if self.conflict is not None and rel not in self.conflict and (rel2 is None or rel2 not in self.conflict):
             return fn()
+        if rel2 is not None:
+            rel = rel + "\x00" + rel2
         os.write(self.req, (json.dumps(["op", op, rel]) + "\n").encode())
         g = os.read(self.grant, 1)
         if g != b"g":
@@ -87,10 +96,10 @@ class ChildHooks(object):
             return h.point("listdir", path, lambda: real_listdir(path, *a, **k))
 
         def rename(src, dst, *a, **k):
-            return h.point("rename", dst, lambda: real_rename(src, dst, *a, **k))
+            return h.point("rename", dst, lambda: real_rename(src, dst, *a, **k), src)
 
         def replace(src, dst, *a, **k):
-            return h.point("replace", dst, lambda: real_replace(src, dst, *a, **k))
+            return h.point("replace", dst, lambda: real_replace(src, dst, *a, **k), src)
 
         def remove(path, *a, **k):
             return h.point("remove", path, lambda: real_remove(path, *a, **k))
@@ -263,6 +272,8 @@ class Execution(object):
 
 
 def _related(pa, pb):
+    if "\x00" in pa or "\x00" in pb:  # two-path operations: related if any pair of paths is
+        return any(_related(x, y) for x in pa.split("\x00") for y in pb.split("\x00"))
     if pa == pb:
         return True
     a = pa.rstrip("/") + "/"
